@@ -270,7 +270,16 @@ func RunC20(ctx *core.Ctx) *core.Violation {
 			d := drawWorkload(t, ins[i].kind)
 			d.opt = ins[i].opt
 			if t.Chance(1, 2) {
-				d.data = sameLengthDecoy(ins[i].data) // same address AND same length as the real input
+				// same address AND same length as the real input; sometimes also the same beginning
+				// or the same end (what a memo keyed by a cheap fingerprint would take for the key)
+				d.data = sameLengthDecoy(ins[i].data)
+				n3 := len(d.data) / 3
+				switch t.Draw(4) {
+				case 1:
+					copy(d.data[:len(d.data)-n3], ins[i].data)
+				case 2:
+					copy(d.data[n3:], ins[i].data[n3:])
+				}
 			}
 			decoy1[i] = &d
 			ctx.Count("probe_decoy_before_real")
